@@ -9,7 +9,7 @@
     linearisation events: [EIns t m k now] = thread t's call for message m with key k was
     answered "new" and recorded k at clock [now]; [EDup] = answered "duplicate";
     [ESweep c T clk ks] = cleaner c, at clock clk, ran cleanOut(T) and deleted exactly ks. *)
-From WM Require Import Base.Prelude Dedup.Model Dedup.MonProofs Dedup.Proofs Dedup.ApiProofs Dedup.Timed Dedup.TimedProofs.
+From WM Require Import Base.Prelude Dedup.Model Dedup.MonProofs Dedup.Proofs Dedup.ApiProofs Dedup.Timed Dedup.TimedProofs Dedup.Clients Dedup.ClientsProofs.
 Local Open Scope Z_scope.
 
 (** The lookup and the insert of different goroutines never interleave: at most one thread is
@@ -196,6 +196,44 @@ Print Assumptions C14_results_are_trace_calls.
 Theorem C14_handler_iff_new : forall k dup, mw_handler (mw_run (IKey k) (rres_of dup)) = negb dup.
 Proof. exact mw_handler_iff_new. Qed.
 Print Assumptions C14_handler_iff_new.
+
+(** ** Middleware calls and decorator batches as client programs of the concurrent system
+    (Dedup/Clients.v): a goroutine's operations [ops] compile to the program of IsDuplicate
+    calls it makes; [delivered] computes through [mw_run] / [dec_run] which messages reach the
+    handler / the inner publisher from the answers. *)
+
+(** A thread's program is conserved by every schedule: done ++ in flight ++ to do. *)
+Theorem C14_program_conserved : forall (w t0 : Z) roles sched t prog,
+  roles t = RClient prog ->
+  prog_of (thr (run w (init t0 roles) sched) t) = prog.
+Proof. exact program_conserved. Qed.
+Print Assumptions C14_program_conserved.
+
+(** Sequentially: the delivered messages are exactly those whose call was answered "new". *)
+Theorem C14_delivered_news : forall ops ans,
+  length ans = length (compile true ops) ->
+  delivered true ops ans = news (combine (compile true ops) ans).
+Proof. exact delivered_news. Qed.
+Print Assumptions C14_delivered_news.
+
+(** In the concurrent system — any window, population, schedule: when a goroutine running
+    [ops] (middleware calls and decorator batches, hasher failures included) has finished, the
+    messages its handler / inner publisher were given are exactly, in order, the messages of
+    its linearisation events "new" ([EIns t m _ _]); with [C14_one_per_epoch]: per key and
+    epoch exactly one message of ALL goroutines reaches a handler or publisher. *)
+Theorem C14_delivered_iff_new : forall (w t0 : Z) roles sched t ops res,
+  roles t = RClient (compile true ops) ->
+  thr (run w (init t0 roles) sched) t = TClient [] PIdle res ->
+  delivered true ops (rev (map snd res)) = ins_msgs t (rev (trace (run w (init t0 roles) sched))).
+Proof. exact delivered_iff_new. Qed.
+Print Assumptions C14_delivered_iff_new.
+
+(** Before the repair of the decorator this fails: a recorded message is not delivered. *)
+Theorem C14_delivered_iff_new_refuted_before_fix :
+  exists ops ans, length ans = length (compile false ops)
+                  /\ delivered false ops ans <> news (combine (compile false ops) ans).
+Proof. exact delivered_before_fix_refuted. Qed.
+Print Assumptions C14_delivered_iff_new_refuted_before_fix.
 
 (** Middleware: a duplicate is dropped as a success — (nil, nil) — and that is the only way to
     get (nil, nil) from the middleware itself; the handler is not invoked. *)
